@@ -93,9 +93,10 @@ Section Sort.
     rbind (merge_new ins) (merge_drain (S (length (join ins)))).
 
   (* MergeSlices(less, out, in...): out = Grow(out[:0], n), then appends.  Returns the result
-     and whether it is stored in out's array (cap(out) >= n). *)
+     and whether it is stored in out's array (0 < n <= cap(out); outcap < 0 stands for a nil out). *)
   Definition merge_slices (outcap : Z) (ins : list (list Z)) : result (list Z * bool) :=
-    rbind (merge ins) (fun l => Ok (l, zlen (join ins) <=? outcap)).
+    let n := zlen (join ins) in
+    rbind (merge ins) (fun l => Ok (l, (0 <? n) && (n <=? outcap))).
 
   (* ---- MinK ---- *)
   Definition zheap_ := heap Z unit.
